@@ -13,17 +13,18 @@
 (***************************************************************************)
 EXTENDS Naturals, TLC
 Modes == {"ok", "altered-payload", "bad-signature"}
-Changes == {"none", "referenced", "unreferenced"}
+\* "padding": a non-zero byte in a padding field of the identity assertion (first / middle / last byte of pad1 or pad2)
+Changes == {"none", "referenced", "unreferenced", "padding"}
 VARIABLES mode, changed, nrefs
 vars == <<mode, changed, nrefs>>
 Init == mode \in Modes /\ changed \in Changes /\ nrefs \in 0..2 /\ (changed = "referenced" => nrefs >= 1)
 Next == UNCHANGED vars
 Spec == Init /\ [][Next]_vars
-CawgIntact == mode = "ok" /\ changed # "referenced"
+CawgIntact == mode = "ok" /\ changed \notin {"referenced", "padding"}
 CawgVerdict == IF CawgIntact THEN "validated" ELSE "failure"
 \* the C2PA layer has its own binding of every assertion (hashed URIs in the claim)
 ManifestVerdict == IF changed = "none" THEN "not-invalid" ELSE "invalid"
 CawgNeverInvalidates == (changed = "none") => ManifestVerdict = "not-invalid"
-AnyBindingBreakReported == (mode # "ok" \/ changed = "referenced") => CawgVerdict = "failure"
+AnyBindingBreakReported == (mode # "ok" \/ changed \in {"referenced", "padding"}) => CawgVerdict = "failure"
 CreatedValidates == (mode = "ok" /\ changed = "none") => CawgVerdict = "validated"
 =============================================================================
